@@ -4,7 +4,7 @@
 From Coq Require Import List String Ascii Bool Arith Lia Sorting.Sorted Permutation.
 Import ListNotations.
 Require Import SDJ.Json SDJ.Wire SDJ.Model2 SDJ.Out SDJ.Restore2 SDJ.Split SDJ.SplitM SDJ.SplitMProofs SDJ.ATree
-  SDJ.T2a SDJ.T2b SDJ.T2c SDJ.T2h SDJ.T2m SDJ.T2o SDJ.T2q SDJ.T1m SDJ.T1n SDJ.Verify SDJ.C05Proofs.
+  SDJ.T2a SDJ.T2b SDJ.T2c SDJ.T2e SDJ.T2h SDJ.T2m SDJ.T2o SDJ.T2q SDJ.T1m SDJ.T1n SDJ.Verify SDJ.C05Proofs.
 Local Open Scope string_scope.
 
 (* the claims the relying party sees: the projection without the top-level _sd_alg *)
@@ -101,4 +101,28 @@ Proof.
   destruct (restore_full_ok H enc (o_dec O) show_nat hash_inj dec_enc t Hwf Hnd Hndh Hheight L ds HndL Hdecoy Hd) as [ps Hok].
   rewrite Hok. cbn [of_res obind fst snd]. rewrite remove_digests_view. reflexivity.
 Qed.
+
+(* Holder::verify accepts duplicate-free decodable lists on any conformant token, bound or not, and reports
+   each placed disclosure with the path of its node *)
+Theorem holder_verify_complete token jwt L ds hdr0 a alg :
+  sd_jwt_parts token = (jwt, L, None) -> o_jwt O jwt = Val (hdr0, blind t) ->
+  jget "_sd_alg" (blind t) = JStr a -> parse_halg a = Some alg -> o_hash O alg = H ->
+  NoDup L -> (forall s, In s L -> In (H s) (alldigs t) -> In (H s) (hdigs t)) ->
+  decode_all H (o_dec O) L = Ok ds ->
+  exists ps, holder_verify O token = Val (hdr0, drop_alg (proj (ownS H L) t), ps) /\
+    Forall (fun pd : dpath => In (snd pd) ds /\ NodePath H enc show_nat (d_digest (snd pd)) t (fst pd)) ps.
+Proof.
+  intros Hp Hj Ha Hh Ho HndL Hdecoy Hd. unfold holder_verify, holder_verify_raw.
+  rewrite sd_jwt_parts_m_total, Hp. cbn [obind]. rewrite Hj. cbn [obind]. rewrite Ha, Hh. cbn [obind].
+  unfold restore_and_strip. rewrite Ha. cbn [jstr_or_empty]. rewrite Hh, Ho.
+  destruct (restore_full_ok_paths H enc (o_dec O) show_nat hash_inj dec_enc t Hwf Hnd Hndh Hheight L ds HndL Hdecoy Hd) as (ps & Hok & Hpl & _).
+  rewrite Hok. cbn [of_res obind fst snd]. rewrite remove_digests_view. exists ps. split; [reflexivity|assumption].
+Qed.
 End C03.
+
+(* the digest algorithm used for every disclosure is the one named by the signed _sd_alg claim *)
+Theorem restore_and_strip_alg O claims ds a alg :
+  jget "_sd_alg" claims = JStr a -> parse_halg a = Some alg ->
+  restore_and_strip O claims ds =
+  obind (of_res (restore_disclosures (o_hash O alg) (o_dec O) show_nat claims ds)) (fun cp => Val (remove_digests (fst cp), snd cp)).
+Proof. intros Ha Hp. unfold restore_and_strip. rewrite Ha. cbn [jstr_or_empty]. rewrite Hp. reflexivity. Qed.
